@@ -28,7 +28,7 @@ def run(ck: Check):
     ck.translate("LibIO", t_libio.gen_libio)
     ck.prove("Props/C15", THEOREMS)
     rng = ck.rng
-    kinds = ["dense", "dense-unique", "conv2d", "conv2d-random", "conv3d", "dense-wide"]
+    kinds = ["dense", "dense-unique", "conv2d", "conv2d-random", "conv3d", "dense-wide", "dense-nogs"]
     reps = 1 if ck.tier == "quick" else 4
     plan = []
     for rep in range(reps):
@@ -51,13 +51,14 @@ def run(ck: Check):
         if [[round(v * tau) for v in row] for row in a["eval"]] != a["compiled"]:
             ck.disagree("compiled library differs from the model already in the saving process", case, signature={"what": "compile", "kind": p["kind"]})
         for warm in (False, True):
-            job = dict(p, kind_of_job="reload", input_shape=a["input_shape"], k=a["k"], warm=warm)
+            job = dict(p, kind_of_job="reload", input_shape=a["input_shape"], k=a["k"], warm=warm, n_out=a.get("n_out"))
             if warm:
                 # the reloading process first loads and calls ANOTHER saved library (the previous successfully saved one)
                 prev = next((j for j in range(i - 1, -1, -1) if a_res[j]["done"] and a_res[j]["steps"]), None)
                 if prev is not None:
                     pa = a_res[prev]["steps"][0]
-                    job["preload"] = dict(lib_path=plan[prev]["lib_path"], input_shape=pa["input_shape"], k=pa["k"], W=plan[prev]["W"])
+                    job["preload"] = dict(lib_path=plan[prev]["lib_path"], input_shape=pa["input_shape"], k=pa["k"], W=plan[prev]["W"],
+                                          n_out=None if pa["k"] else pa.get("n_out"))
             b_jobs.append(job)
             idx.append((i, warm))
     b_res = subproc.run_jobs(ck.scratch, b_jobs, workers=6)
